@@ -1002,24 +1002,52 @@ def wiring():
         for fn0 in mod.classes[cls].body:
             if not isinstance(fn0, ast.FunctionDef):
                 continue
+            cached0 = any(ast.unparse(d).split(".")[-1] == "cached_quantity" for d in fn0.decorator_list)
             for c0 in ast.walk(fn0):
                 if isinstance(c0, ast.Call) and isinstance(c0.func, ast.Name) and c0.func.id in mod.funcs:
                     g0 = mod.funcs[c0.func.id]
-                    pname = None
+                    bind = {}
                     for i0, a0 in enumerate(c0.args):
-                        if isinstance(a0, ast.Name) and a0.id == "self" and i0 < len(g0.args.args):
-                            pname = g0.args.args[i0].arg
+                        if i0 < len(g0.args.args):
+                            bind[g0.args.args[i0].arg] = a0
                     for kw0 in c0.keywords:
-                        if isinstance(kw0.value, ast.Name) and kw0.value.id == "self":
-                            pname = kw0.arg
-                    if pname and not any(x.name == g0.name for x in adopted):
-                        g1 = _copy0.deepcopy(g0)
-                        for n0 in ast.walk(g1):
-                            if isinstance(n0, ast.Name) and n0.id == pname:
-                                n0.id = "self"
-                        g1.args.args = [a for a in g1.args.args if a.arg != pname]
-                        g1.decorator_list = []
-                        adopted.append(g1)
+                        if kw0.arg:
+                            bind[kw0.arg] = kw0.value
+                    if not any(isinstance(x0, ast.Name) and x0.id == "self" for v0 in bind.values() for x0 in ast.walk(v0)):
+                        continue
+                    # arguments that are single-assignment locals of the caller are replaced by what they stand for
+                    once0 = {}
+                    for a0 in ast.walk(fn0):
+                        if isinstance(a0, ast.Assign) and len(a0.targets) == 1 and isinstance(a0.targets[0], ast.Name):
+                            once0.setdefault(a0.targets[0].id, []).append(a0.value)
+                    for k0, v0 in list(bind.items()):
+                        if isinstance(v0, ast.Name) and len(once0.get(v0.id, [])) == 1 and not isinstance(once0[v0.id][0], ast.Call):
+                            bind[k0] = once0[v0.id][0]
+                    # the helper specialised to this call: parameters replaced by the argument expressions (only simple ones: names,
+                    # attributes, constants), `getattr(self, "x")` read as `self.x`; what it constructs is attributed to the caller
+                    bind = {k0: v0 for k0, v0 in bind.items() if isinstance(v0, (ast.Name, ast.Attribute, ast.Constant))}
+                    for v0 in bind.values():
+                        for x0 in ast.walk(v0):
+                            if isinstance(x0, ast.Call) and isinstance(x0.func, ast.Name) and x0.func.id == "super":
+                                x0.args = []
+
+                    class Sub(ast.NodeTransformer):
+                        def visit_Name(s_, n_):
+                            if isinstance(n_.ctx, ast.Load) and n_.id in bind:
+                                return _copy0.deepcopy(bind[n_.id])
+                            return n_
+
+                        def visit_Call(s_, n_):
+                            n_ = s_.generic_visit(n_)
+                            if isinstance(n_.func, ast.Name) and n_.func.id == "getattr" and len(n_.args) == 2 and isinstance(n_.args[1], ast.Constant) \
+                                    and isinstance(n_.args[1].value, str):
+                                return ast.Attribute(value=n_.args[0], attr=n_.args[1].value, ctx=ast.Load())
+                            return n_
+                    g1 = ast.fix_missing_locations(Sub().visit(_copy0.deepcopy(g0)))
+                    g1.args.args = [a for a in g1.args.args if a.arg not in bind]
+                    g1.decorator_list = []
+                    g1._site0 = f"{cls}.{fn0.name}" if cached0 else f"{cls}.<helper>"
+                    adopted.append(g1)
         for fn in list(mod.classes[cls].body) + adopted:
             if not isinstance(fn, ast.FunctionDef):
                 continue
@@ -1029,7 +1057,7 @@ def wiring():
             if not cached and fn.name in ("__init__", "validate", "update", "clone"):
                 continue
             k = 0
-            site0 = f"{cls}.{fn.name}" if cached else f"{cls}.<helper>"      # helpers are interchangeable places: keyed by class only
+            site0 = getattr(fn, "_site0", f"{cls}.{fn.name}" if cached else f"{cls}.<helper>")      # helpers are interchangeable places: keyed by class only
             # single-assignment locals are written out in the recorded argument texts (so `mask = dndm > 0; f(m[mask])` reads `f(m[dndm > 0])`)
             cnt_ = {}
             for a_ in ast.walk(fn):
